@@ -1,9 +1,462 @@
-"""Rules over the reproc++ (cxx) configuration. Filled in by C19 / C15 / C16."""
+"""Rules over the reproc++ (cxx) configuration: C19, C15.D4, C16.G6."""
+import re
+from .facts import AnalysisBroken, strip, expr_str, TRANSPARENT, CALL_KINDS, load_program, repo_root
+from .absint import walk_nodes
+from .rulelib import *
+from . import linexpr as L
+from . import cxxcfg
+
+LOOK_THROUGH_METHODS = ("count", "data", "size", "get")
+C_AGGREGATES = ("reproc_options", "reproc_redirect", "reproc_stop_actions", "reproc_stop_action", "reproc_event_source", "")
+
+
+def cstrip(n):
+    while True:
+        k = n["k"]
+        if k in TRANSPARENT and n.get("c"):
+            n = n["c"][0]
+        elif k in ("CXXConstructExpr", "CXXTemporaryObjectExpr") and len(n.get("c", [])) == 1:
+            n = n["c"][0]
+        else:
+            return n
+
+
+def source_name(n):
+    """the name a C++ expression is 'about': last member on its access chain, or the parameter name"""
+    n = cstrip(n)
+    k = n["k"]
+    if k == "MemberExpr":
+        if n["member"] == "impl_" and n.get("c") and cstrip(n["c"][0])["k"] != "CXXThisExpr":
+            return source_name(n["c"][0])
+        return n["member"]
+    if k == "DeclRefExpr":
+        return n["name"]
+    if k == "CXXMemberCallExpr":
+        callee = cstrip(n["c"][0])
+        if callee["k"] == "MemberExpr" and callee["member"] in LOOK_THROUGH_METHODS and callee.get("c"):
+            return source_name(callee["c"][0])
+        return None
+    if k == "CallExpr" and n.get("callee", "").endswith("_from") and len(n["c"]) > 1:
+        return source_name(n["c"][1])
+    if k in ("IntegerLiteral", "CXXBoolLiteralExpr"):
+        return str(n.get("val"))
+    if k in ("CXXNullPtrLiteralExpr", "GNUNullExpr"):
+        return "nullptr"
+    if k == "InitListExpr":
+        return "{...}"
+    return None
+
+
+# ------------------------------------------------------------------------------ C19
+
+def c19_initialisers(ctx, prog):
+    n = 0
+    for F in prog.funcs_all:
+        if not F.file.endswith("reproc.cpp"):
+            continue
+        for node in F.walk():
+            if node["k"] != "InitListExpr" or "fields" not in node:
+                continue
+            rec = node.get("rec", "")
+            if rec not in C_AGGREGATES:
+                continue
+            if rec == "" and not any(a["k"] == "InitListExpr" and a.get("rec") in C_AGGREGATES for a in F.ancestors(node)):
+                continue
+            for fld, sub in zip(node["fields"], node["c"]):
+                s0 = cstrip(sub)
+                if s0["k"] == "InitListExpr":
+                    continue       # nested aggregate: checked on its own
+                if s0["k"] == "ImplicitValueInitExpr":
+                    continue
+                src = source_name(sub)
+                ok = src == fld
+                if not ok and s0["k"] == "CXXMemberCallExpr":
+                    # accessor named like the C field on the member named like the enclosing C field: options.input.data()
+                    callee = cstrip(s0["c"][0])
+                    parent_field = None
+                    par = F.nodes.get(F.parent.get(node["id"]))
+                    if par is not None and par["k"] == "InitListExpr" and "fields" in par:
+                        idx = [i for i, x in enumerate(par["c"]) if x["id"] == node["id"]]
+                        if idx and idx[0] < len(par["fields"]):
+                            parent_field = par["fields"][idx[0]]
+                    if callee["k"] == "MemberExpr" and callee["member"] == fld and src == parent_field:
+                        ok = True
+                if src in ("0", "nullptr") and fld == "events":
+                    ok = True      # filled in by the callee (reproc_poll)
+                n += 1
+                ctx.ob("C19.F1", "%s: %s.%s" % (F.name, rec or "<nested struct>", fld), "the value initialising this C field comes from "
+                       "the same-named C++ member or parameter (positional initialisers follow the C field order)", ok,
+                       {"c_field": fld, "initialised_from": expr_str(sub)[:60], "source_name": src, "line": sub["l"][0]}, nontrivial=True)
+    ctx.floor("C19.F1", 25)
+
+
+def norm(name):
+    return name.rstrip("_").lower()
+
+
+def c19_enums(ctx, prog, cprog):
+    pairs = []
+    groups = {"reproc::stop": "REPROC_STOP_", "reproc::redirect::type": "REPROC_REDIRECT_", "reproc::stream": "REPROC_STREAM_",
+              "reproc::env::type": "REPROC_ENV_", "reproc::event::(anonymous)": "REPROC_EVENT_"}
+    seen = set()
+    for e in prog.enums:
+        q = e["qname"]
+        if q not in groups or q in seen:
+            continue
+        seen.add(q)
+        prefix = groups[q]
+        cpp = {norm(i["name"]): i for i in e["items"]}
+        cs = {k[len(prefix):].lower(): v for k, v in cprog.enumerators.items() if k.startswith(prefix)}
+        ctx.ob("C19.F2b", q, "the C++ enumerators and the C enumerators %s* correspond one to one" % prefix, set(cpp) == set(cs),
+               {"cpp_only": sorted(set(cpp) - set(cs)), "c_only": sorted(set(cs) - set(cpp))})
+        for name in sorted(set(cpp) & set(cs)):
+            qn = q.replace("(anonymous)", "").rstrip(":") + "::" + cpp[name]["name"]
+            pairs.append((qn, prefix + name.upper(), cpp[name]["val"], cs[name]))
+    if len(seen) != len(groups):
+        raise AnalysisBroken("C19.F2: C++ enums not found: %s" % sorted(set(groups) - seen))
+    for qn, cn, cv, v in pairs:
+        ctx.ob("C19.F2", "%s == %s" % (qn, cn), "the C++ enumerator has the value of its C counterpart (it is passed on with a cast)",
+               cv == v, {"cpp": cv, "c": v})
+    # the same as compile-fail witnesses (static_assert), so a divergence cannot even build this TU
+    lines = ["#include <reproc++/reproc.hpp>", "#include <reproc/reproc.h>"]
+    for qn, cn, cv, v in pairs:
+        lines.append("static_assert(static_cast<int>(%s) == static_cast<int>(%s), \"%s\");" % (qn, cn, qn))
+    ok, err = cxxcfg.syntax_check(prog.root, "\n".join(lines) + "\n", "witness_enums.cpp")
+    failed = re.findall(r"static_assert failed.*?\"([^\"]+)\"", err)
+    ctx.ob("C19.F2w", "static_assert witness TU (%d assertions)" % len(pairs), "a translation unit asserting every enumerator pair compiles",
+           ok, {"failed": failed[:6], "errors": err[-400:] if not ok and not failed else None}, nontrivial=True)
+    # constants initialised from the C constants
+    want = {"kill": "REPROC_SIGKILL", "terminate": "REPROC_SIGTERM", "infinite": "REPROC_INFINITE", "deadline": "REPROC_DEADLINE"}
+    found = {}
+    for v in prog.vars:
+        if v["scope"] == "file" and v["name"] in want and v.get("def") and "init" in v and v["file"].endswith("reproc.cpp"):
+            refs = [x["name"] for x in walk_nodes(v["init"]) if x["k"] == "DeclRefExpr" and x["name"].startswith("REPROC_")]
+            found[v["qname"]] = refs
+            ctx.ob("C19.F2c", v["qname"], "the C++ constant is initialised from its C counterpart", refs == [want[v["name"]]], {"initialiser": refs})
+    ctx.floor("C19.F2c", 4)
+
+
+def c19_clone(ctx, prog):
+    F = prog.fn("reproc::options::clone")
+    rec = [r for r in prog.records_all if r["qname"] == "reproc::options"]
+    if not rec:
+        raise AnalysisBroken("struct reproc::options not found")
+    fields = [f["name"] for f in rec[0]["fields"]]
+    assigned = {}
+    for n in F.walk():
+        if n["k"] in ("BinaryOperator", "CXXOperatorCallExpr") and (n.get("op") == "=" or n.get("callee") == "operator="):
+            kids = n["c"] if n["k"] == "BinaryOperator" else n["c"][1:]
+            lhs, rhs = kids[0], kids[1]
+            fp = chain(lhs)
+            if fp and fp[0] == "clone" and fp[1]:
+                rp = chain_any(rhs)
+                assigned.setdefault(fp[1][0], []).append((fp[1], rp))
+    for f in fields:
+        subs = assigned.get(f, [])
+        ok = bool(subs) and all(rp is not None and rp[0] == "other" and rp[1][:len(lp)] == lp for lp, rp in subs)
+        # a struct member may be copied member-wise: then every sub member must be covered
+        if subs and any(len(lp) > 1 for lp, rp in subs):
+            sub_rec = [r for r in prog.records_all if r.get("parent") == "options" and any(ff["name"] == subs[0][0][1] for ff in r["fields"])]
+            if sub_rec:
+                need = {ff["name"] for ff in sub_rec[0]["fields"]}
+                ok = ok and need <= {lp[1] for lp, rp in subs if len(lp) > 1}
+        ctx.ob("C19.F3", "options::clone: " + f, "copying options preserves this member (it is assigned from the same member of the source)",
+               ok, {"assignments": [(".".join(lp), ".".join(rp[1]) if rp else None) for lp, rp in subs]})
+    ctx.floor("C19.F3", 8)
+
+
+def chain(n):
+    n = cstrip(n)
+    path = []
+    while True:
+        n = cstrip(n)
+        if n["k"] == "MemberExpr" and n.get("c"):
+            path.append(n["member"])
+            n = n["c"][0]
+        elif n["k"] == "DeclRefExpr":
+            path.reverse()
+            return n["name"], path
+        else:
+            return None
+
+
+def chain_any(n):
+    """member chain of the first declref-rooted chain inside n (looks through .data() etc.)"""
+    n = cstrip(n)
+    if n["k"] == "CXXMemberCallExpr":
+        callee = cstrip(n["c"][0])
+        if callee["k"] == "MemberExpr" and callee.get("c"):
+            return chain_any(callee["c"][0])
+    c = chain(n)
+    if c:
+        return c
+    for x in n.get("c", []):
+        r = chain_any(x)
+        if r:
+            return r
+    return None
+
+
+WRAPPERS = {
+    "start": ("reproc_start", ["arguments", "reproc_options"]), "fork": ("reproc_start", ["nullptr", "reproc_options"]),
+    "read": ("reproc_read", ["stream", "buffer", "size"]), "write": ("reproc_write", ["buffer", "size"]),
+    "close": ("reproc_close", ["stream"]), "wait": ("reproc_wait", ["timeout"]), "terminate": ("reproc_terminate", []),
+    "kill": ("reproc_kill", []), "stop": ("reproc_stop", ["stop"]), "pid": ("reproc_pid", []),
+}
+
+
+def c19_wrappers(ctx, prog, cprog):
+    for m, (cfn, argnames) in WRAPPERS.items():
+        q = "reproc::process::" + m
+        if q not in prog.funcs:
+            ctx.ob("C19.F4", q, "the wrapper method exists", False, None)
+            continue
+        F = prog.funcs[q]
+        ccalls = [n for n in F.walk() if n["k"] == "CallExpr" and n.get("callee", "").startswith("reproc_") and not n["callee"].endswith("_from")]
+        ok = len(ccalls) == 1 and ccalls[0]["callee"] == cfn
+        det = {"calls": [c.get("callee") for c in ccalls]}
+        if ok:
+            a = ccalls[0]["c"][1:]
+            h = source_name(a[0])
+            names = [source_name(x) for x in a[1:]]
+            det["args"] = names
+            ok = h == "impl_" or chain_any(a[0]) and "impl_" in expr_str(a[0])
+            ok = ok and names == argnames
+            # the result variable feeds error_code_from and (where a value is returned) the value itself
+            rv = None
+            par = F.nodes.get(F.parent.get(ccalls[0]["id"]))
+            while par is not None and par["k"] in TRANSPARENT:
+                par = F.nodes.get(F.parent.get(par["id"]))
+            if par is not None and par["k"] == "VarDecl":
+                rv = par["name"]
+            ecalls = [n for n in F.walk() if n["k"] == "CallExpr" and n.get("callee") == "error_code_from"]
+            ok = ok and rv is not None and len(ecalls) == 1 and source_name(ecalls[0]["c"][1]) == rv
+            det["result_var"] = rv
+            if m == "fork":
+                # true in the child: r == 0
+                cmp_ = [n for n in F.walk() if n["k"] == "BinaryOperator" and n["op"] == "==" and source_name(n["c"][0]) == rv and cstrip(n["c"][1]).get("val") == 0]
+                ok = ok and len(cmp_) == 1
+                fk = [n for n in F.walk() if n["k"] == "CallExpr" and n.get("callee") == "reproc_options_from"]
+                ok = ok and len(fk) == 1 and cstrip(fk[0]["c"][2]).get("val") == 1
+            if m == "start":
+                fk = [n for n in F.walk() if n["k"] == "CallExpr" and n.get("callee") == "reproc_options_from"]
+                ok = ok and len(fk) == 1 and cstrip(fk[0]["c"][2]).get("val") == 0
+        ctx.ob("C19.F4", q, "the method calls exactly %s on the owned handle with its own parameters in order, and returns that call's result "
+               "and error_code_from of it" % cfn, ok, det, nontrivial=True)
+    # error translation
+    F = prog.fn("reproc::error_code_from")
+    rets = [x for x in F.walk() if x["k"] == "ReturnStmt"]
+    ifs = [x for x in F.walk() if x["k"] == "IfStmt"]
+    ok_nonneg = False
+    specials = []
+    generic_default = False
+    for i in ifs:
+        c = cstrip(F.nodes[i["cond"]])
+        if c["k"] == "BinaryOperator" and c["op"] == ">=" and cstrip(c["c"][1]).get("val") == 0:
+            then = F.nodes[i["then"]]
+            r = [x for x in walk_nodes(then) if x["k"] == "ReturnStmt"]
+            ok_nonneg = len(r) == 1 and not [y for y in walk_nodes(r[0]) if y["k"] in ("DeclRefExpr",) and y.get("dk") != "func"]
+        elif c["k"] == "BinaryOperator" and c["op"] == "==":
+            cn = [y for y in walk_nodes(c) if y["k"] == "DeclRefExpr" and y["name"].startswith("REPROC_E")]
+            then = F.nodes[i["then"]]
+            codes = [y for y in walk_nodes(then) if y["k"] == "DeclRefExpr" and y.get("dk") == "enum"]
+            if cn and codes:
+                specials.append((cn[0]["name"], codes[0]["name"], codes[0]["val"], []))
+    # the general case: some return builds {-r, system_category()}
+    for rs in rets:
+        neg = [x for x in walk_nodes(rs) if x["k"] == "UnaryOperator" and x["op"] == "-"]
+        cats = [x.get("callee") for x in walk_nodes(rs) if x["k"] == "CallExpr"]
+        if len(neg) == 1 and source_name(neg[0]["c"][0]) == "r" and "system_category" in cats:
+            generic_default = True
+    ctx.ob("C19.F4e", "error_code_from: r >= 0", "non-negative results become success (an empty error code)", ok_nonneg, None)
+    ctx.ob("C19.F4e", "error_code_from: r < 0", "a negative result becomes the error code -r in the system category", generic_default, None)
+    for cname, ename, eval_, cats in specials:
+        ctx.ob("C19.F4e", "error_code_from: %s" % cname, "a specially translated C error maps to the std::errc value with the same number "
+               "(an equivalent error)", eval_ == -cprog.const(cname), {"errc": ename, "errc_value": eval_, "c_value": cprog.const(cname)})
+    ctx.floor("C19.F4", 10)
+    # F5 poll copy in / out
+    P = prog.fn("reproc::poll")
+    inits = [n for n in P.walk() if n["k"] == "InitListExpr" and n.get("rec") == "reproc_event_source"]
+    loops = [n for n in P.walk() if n["k"] == "ForStmt"]
+    news = [n for n in P.walk() if n["k"] == "CXXNewExpr"]
+    dels = [n for n in P.walk() if n["k"] == "CXXDeleteExpr"]
+    call = [n for n in P.walk() if n["k"] == "CallExpr" and n.get("callee") == "reproc_poll"]
+    copy_out = [n for n in P.walk() if n["k"] == "BinaryOperator" and n["op"] == "=" and source_name(n["c"][0]) == "events" and source_name(n["c"][1]) == "events"]
+    ok = len(inits) == 1 and len(loops) == 2 and len(news) == 1 and news[0].get("array") and len(dels) == 1 and dels[0].get("array") \
+        and len(call) == 1 and [source_name(a) for a in call[0]["c"][1:]] == ["reproc_sources", "num_sources", "timeout"] and len(copy_out) == 1
+    guard = False
+    if copy_out:
+        for a in P.ancestors(copy_out[0]):
+            if a["k"] == "IfStmt":
+                c = cstrip(P.nodes[a["cond"]])
+                guard = c["k"] == "BinaryOperator" and c["op"] == ">=" and cstrip(c["c"][1]).get("val") == 0
+    ctx.ob("C19.F5", "reproc::poll", "every source's handle and interests are copied in per index, reproc_poll gets the array, count and "
+           "timeout, events are copied back per index when the call succeeded, and the temporary array is freed", ok and guard,
+           {"new[]": len(news), "delete[]": len(dels), "copy_out_guarded_by_r>=0": guard})
+
+
+def c19_containers(ctx, prog):
+    """F6: arguments::from / env::from: array sizes vs entries written, string sizes vs characters written"""
+    for q in ("reproc::arguments::from", "reproc::env::from"):
+        Fs = [F for F in prog.funcs_all if F.qname == q]
+        if not Fs:
+            raise AnalysisBroken("%s is not instantiated by the witness TU" % q)
+        for F in Fs[:1]:
+            news = [n for n in F.walk() if n["k"] == "CXXNewExpr" and n.get("array")]
+            if len(news) != 2:
+                ctx.ob("C19.F6", q, "one pointer array and one string per entry are allocated", False, {"new[]": len(news)})
+                continue
+            arr = [n for n in news if "*" in n.get("allocT", "")][0]
+            stg = [n for n in news if n is not arr][0]
+            arr_size = L.lin(arr["c"][0]) if arr.get("c") else None
+            cont = F.params[0]["name"]
+            want_arr = {"%s.size()" % cont: 1, 1: 1}
+            ctx.ob("C19.F6", q + ": pointer array", "the pointer array has one slot per entry plus the NULL terminator", arr_size == want_arr,
+                   {"allocated": L.show(arr_size), "needed": L.show(want_arr)}, nontrivial=True)
+            # string: allocated size vs number of *string++ / *string stores, each inside a loop bounded by X.size()
+            stg_size = L.lin(stg["c"][0]) if stg.get("c") else None
+            written = {}
+            svar = None
+            par = F.nodes.get(F.parent.get(stg["id"]))
+            while par is not None and par["k"] != "VarDecl":
+                par = F.nodes.get(F.parent.get(par["id"]))
+            svar = par["name"] if par else None
+            for n in F.walk():
+                if n["k"] == "BinaryOperator" and n["op"] == "=":
+                    l = cstrip(n["c"][0])
+                    if l["k"] == "UnaryOperator" and l["op"] == "*" and svar in expr_str(l):
+                        loops = [a for a in F.ancestors(n) if a["k"] == "ForStmt"]
+                        if loops:
+                            cond = cstrip(F.nodes[loops[0]["cond"]])
+                            bound = L.lin(cond["c"][1]) if cond["k"] == "BinaryOperator" and cond["op"] == "<" else None
+                            if bound is None:
+                                written = None
+                                break
+                            written = L.add(written, bound)
+                        else:
+                            written = L.add(written, {1: 1})
+            ok = stg_size is not None and written is not None and L.geq(stg_size, written)
+            ctx.ob("C19.F6", q + ": strings", "each string is allocated for all characters written into it ('=' and terminator included)",
+                   ok, {"allocated": L.show(stg_size), "written": L.show(written)}, nontrivial=True)
+            # entries stored at a monotonically increasing index, terminator last
+            idx_stores = [n for n in F.walk() if n["k"] == "BinaryOperator" and n["op"] == "=" and cstrip(n["c"][0])["k"] == "ArraySubscriptExpr"]
+            inc = [n for n in idx_stores if cstrip(cstrip(n["c"][0])["c"][1])["k"] == "UnaryOperator" and cstrip(cstrip(n["c"][0])["c"][1])["op"] == "++"]
+            term = [n for n in idx_stores if cstrip(n["c"][1])["k"] == "CXXNullPtrLiteralExpr" or cstrip(n["c"][1]).get("null")]
+            ctx.ob("C19.F6", q + ": order", "entries are stored at current++ in iteration order and the array is terminated with nullptr",
+                   len(inc) == 1 and len(term) == 1 and bool([a for a in F.ancestors(inc[0]) if a["k"] in ("CXXForRangeStmt",)]), None)
+    # detail::array destructor frees what from() allocated; moves null the source
+    D = [F for F in prog.funcs_all if F.qname == "reproc::detail::array::~array"]
+    if D:
+        dels = [n for n in D[0].walk() if n["k"] == "CXXDeleteExpr"]
+        ok = len(dels) == 2 and all(d.get("array") for d in dels) and len([d for d in dels if [a for a in D[0].ancestors(d) if a["k"] == "ForStmt"]]) == 1
+        guard = bool([n for n in D[0].walk() if n["k"] == "IfStmt" and "owned_" in expr_str(D[0].nodes[n["cond"]])])
+        ctx.ob("C19.F6d", "detail::array::~array", "owned arrays are released with one delete[] per entry and one for the array; borrowed ones are left alone",
+               ok and guard, {"delete[]": len(dels)})
+
+
+def check_c19(ctx):
+    prog = ctx.prog("cxx")
+    cprog = ctx.prog("posix-mt")
+    c19_initialisers(ctx, prog)
+    c19_enums(ctx, prog, cprog)
+    c19_clone(ctx, prog)
+    c19_wrappers(ctx, prog, cprog)
+    c19_containers(ctx, prog)
+
+
+# ------------------------------------------------------------------------------ C15.D4
+
+def c15_deleter(ctx):
+    prog = ctx.prog("cxx")
+    ctors = [F for F in prog.funcs_all if F.qname == "reproc::process::process" and not F.params]
+    if not ctors:
+        raise AnalysisBroken("reproc::process default constructor not found")
+    F = ctors[0]
+    inits = F.d.get("ctor_inits", [])
+    ok = False
+    det = None
+    for ci in inits:
+        if ci.get("member") == "impl_":
+            refs = [x["name"] for x in walk_nodes(ci["init"]) if x["k"] == "DeclRefExpr" and x.get("dk") == "func"]
+            det = refs
+            ok = refs == ["reproc_new", "reproc_destroy"] or (set(refs) == {"reproc_new", "reproc_destroy"} and len(refs) == 2)
+    ctx.ob("C15.D4", "reproc::process::process()", "the C++ process owns a handle from reproc_new with reproc_destroy as its deleter, so "
+           "destroying the object destroys the handle (applying the stop policy)", ok, {"impl_ initialised with": det})
+    dt = [F for F in prog.funcs_all if F.qname == "reproc::process::~process"]
+    ctx.ob("C15.D4d", "reproc::process::~process", "the destructor is defaulted (the deleter runs exactly once; a moved-from object holds "
+           "null, which destroy ignores)", bool(dt) and dt[0].d.get("defaulted"), None)
+
+
+# ------------------------------------------------------------------------------ C16.G6
+
+def functor_calls(F, name):
+    out = []
+    for n in F.walk():
+        if n["k"] == "CXXOperatorCallExpr" and n.get("callee") == "operator()" and len(n["c"]) >= 2:
+            obj = cstrip(n["c"][1])
+            if obj["k"] == "DeclRefExpr" and obj["name"] == name:
+                out.append(n)
+        elif n["k"] == "CallExpr" and not n.get("callee"):
+            obj = cstrip(n["c"][0])
+            if obj["k"] == "DeclRefExpr" and obj["name"] == name:
+                out.append(n)
+    return sorted(out, key=lambda n: n["id"])
 
 
 def c16_mirror(ctx):
-    ctx.note("C16.G6 (C++ mirror of drain/run) not implemented yet")
+    prog = ctx.prog("cxx")
+    drains = [F for F in prog.funcs_all if F.qname == "reproc::drain"]
+    if len(drains) < 2:
+        raise AnalysisBroken("reproc::drain is not instantiated by the witness TU")
+    for F in drains:
+        tag = "reproc::drain<%s>" % ",".join(p["t"].split("::")[-1].replace(" &", "").replace("&&", "") for p in F.params[1:])
+        loop = [n for n in F.walk() if n["k"] == "ForStmt"]
+        if len(loop) != 1:
+            ctx.ob("C16.G6", tag, "one poll/read/dispatch loop", False, None)
+            continue
+        loop_ids = {x["id"] for x in walk_nodes(loop[0])}
+        outc, errc = functor_calls(F, "out"), functor_calls(F, "err")
 
-
-def c15_deleter(ctx):
-    ctx.note("C15.D4 (C++ deleter) not implemented yet")
+        def args_of(call):
+            a = call["c"][2:] if call["k"] == "CXXOperatorCallExpr" else call["c"][1:]
+            return [expr_str(cstrip(x)) for x in a]
+        pre_out = [c for c in outc if c["id"] not in loop_ids]
+        pre_err = [c for c in errc if c["id"] not in loop_ids]
+        ok1 = len(pre_out) == 1 and len(pre_err) == 1 and pre_out[0]["id"] < pre_err[0]["id"] and \
+            args_of(pre_out[0])[0] == "in" and args_of(pre_err[0])[0] == "in" and args_of(pre_out[0])[2] == "0" and args_of(pre_err[0])[2] == "0"
+        ctx.ob("C16.G6", tag + ": opening calls", "before the loop the out sink and then the err sink are called once with stream::in and "
+               "size 0", ok1, {"out": [args_of(c) for c in pre_out], "err": [args_of(c) for c in pre_err]})
+        in_out = [c for c in outc if c["id"] in loop_ids]
+        in_err = [c for c in errc if c["id"] in loop_ids]
+        ok2 = len(in_out) == 1 and len(in_err) == 1 and args_of(in_out[0]) == ["stream", "buffer", "bytes_read"] and args_of(in_err[0]) == ["stream", "buffer", "bytes_read"]
+        sel = False
+        if ok2:
+            for a in F.ancestors(in_out[0]):
+                if a["k"] == "IfStmt":
+                    c = cstrip(F.nodes[a["cond"]])
+                    txt = expr_str(c)
+                    sel = "stream" in txt and "out" in txt and a.get("else") is not None and in_err[0]["id"] in {x["id"] for x in walk_nodes(F.nodes[a["else"]])} \
+                        and in_out[0]["id"] in {x["id"] for x in walk_nodes(F.nodes[a["then"]])}
+                    break
+        ctx.ob("C16.G6", tag + ": dispatch", "inside the loop a chunk goes to `out` when the stream read is stdout and to `err` otherwise, "
+               "with the stream tag, the buffer read into and the byte count", ok2 and sel, None)
+        polls = [n for n in F.walk() if n["k"] == "CXXMemberCallExpr" and cstrip(n["c"][0]).get("member") == "poll"]
+        reads = [n for n in F.walk() if n["k"] == "CXXMemberCallExpr" and cstrip(n["c"][0]).get("member") == "read"]
+        ok3 = len(polls) == 1 and len(reads) == 1 and polls[0]["id"] in loop_ids and reads[0]["id"] in loop_ids and polls[0]["id"] < reads[0]["id"]
+        ev_arg = expr_str(cstrip(polls[0]["c"][1])) if polls else ""
+        ok3 = ok3 and "out" in ev_arg and "err" in ev_arg and [expr_str(cstrip(x)) for x in reads[0]["c"][1:]][:2] == ["stream", "buffer"]
+        refs = {x["name"] for x in F.walk() if x["k"] == "DeclRefExpr"}
+        ok4 = "broken_pipe" in refs and "deadline" in refs and "timed_out" in refs
+        ctx.ob("C16.G6", tag + ": loop skeleton", "poll for out|err, a broken pipe from poll ends the drain with success, the deadline event "
+               "with timed_out, then one read of the selected stream", ok3 and ok4, {"poll_events": ev_arg})
+    runs = [F for F in prog.funcs_all if F.qname == "reproc::run" and len(F.params) == 4]
+    for F in runs[:1]:
+        seq = []
+        for n in sorted(F.walk(), key=lambda n: n["id"]):
+            if n["k"] == "CXXMemberCallExpr" and cstrip(n["c"][0]).get("member") in ("start", "stop"):
+                seq.append(cstrip(n["c"][0])["member"])
+            elif n["k"] == "CallExpr" and n.get("callee") == "drain":
+                seq.append("drain")
+        ctx.ob("C16.G6r", "reproc::run", "run starts, drains and stops in that order", seq == ["start", "drain", "stop"], {"sequence": seq})
+    if not runs:
+        raise AnalysisBroken("reproc::run is not instantiated")
